@@ -44,7 +44,7 @@ MAP = [
     (r"src/bls12_381/curve_fast_multiply.cpp", [("C06", []), ("C18", []), ("C20", [])]),
     (r"(src|include)/bls12_381/decomposition", [("C06", []), ("C07", []), ("C10", [])]),
     (r"include/bls12_381/wnaf.hpp", [("C06", []), ("C18", [])]),
-    (r"(src|include)/bls12_381/pairing", [("C01", []), ("C08", []), ("C18", [])]),
+    (r"(src|include)/bls12_381/pairing", [("C01", []), ("C08", []), ("C18", []), ("C19", [])]),
     (r"src/bls12_381/bls12_381.cpp|include/bls12_381/bls12_381.h", [("C19", []), ("C05", []), ("C09", []), ("C08", []), ("C07", [])]),
     (r"src/wkdibe/api.cpp", [("C11", []), ("C12", []), ("C13", []), ("C14", [])]),
     (r"src/wkdibe/marshal.cpp", [("C15", []), ("C17", [])]),
